@@ -204,10 +204,11 @@ func specSameQuota(ue *chf_context.ChfUe, old map[int32]int64) bool {
 // ghostNotifications: re-authorisation notifications handed to the HTTP client
 var ghostNotifications int
 
-// SendChargingNotification posts the notification with the generated OpenAPI client (outside the
-// verified subset): assumed to hand exactly one notification to the client and to touch no charging state.
+// SendChargingNotification hands exactly one notification to the generated OpenAPI client on every path
+// and touches no charging state: checked against its body. The assumption now sits on the dependency
+// (DefaultApiService.PostChargingNotification is the one act of sending; the client constructors return
+// non-nil objects).
 //@ func (*Processor).SendChargingNotification [C12]
-//@   trusted
 //@   ensures ghostNotifications == old(ghostNotifications)+1
 //@   modifies global(&ghostNotifications)
 
